@@ -440,6 +440,10 @@ Definition query_unresolved (c : bcache) (inst : name) : bool :=
     end
   else false.
 
+(* DnsCache::has_ptr_to: any cached PTR record, under any key, whose alias is the instance *)
+Definition has_ptr_to (c : bcache) (inst : name) : bool :=
+  existsb (fun r => beq (c_target r) inst) (flat_map snd (bc_ptr c)).
+
 Definition exec_rerun (now : N) (s : bst) (x : N * rcmd) : bst :=
   match snd x with
   | RBrowse ty delay => browse_send now ty delay s
@@ -447,7 +451,8 @@ Definition exec_rerun (now : N) (s : bst) (x : N * rcmd) : bst :=
     (* a retransmission whose search was stopped or timed out meanwhile does not run *)
     if ahas (lower host) (b_resolvers s) then host_send now host delay s else s
   | RResolve inst n =>
-    if query_unresolved (b_cache s) inst && hp_resolve_retry n hp_resolve_max_try
+    (* follow-up queries only while some cached PTR record still points to the instance *)
+    if has_ptr_to (b_cache s) inst && query_unresolved (b_cache s) inst && hp_resolve_retry n hp_resolve_max_try
     then add_retr (now + hp_resolve_wait_ms) (RResolve inst (n + 1)) s
     else (* the follow-up queries are over: the instance leaves pending_resolves *)
       set_sets (del_name inst (b_pending s)) (b_resolved s) s
